@@ -318,6 +318,9 @@ pub fn run(cfg: &Cfg, rep: &mut Report) {
   // (iv) static battery: the same chains written as ordinary typed (un-boxed) pipelines,
   // so that the un-erased instantiations of the operators are exercised too
   static_battery(cfg, rep);
+  if cfg.only_case.as_deref().map_or(true, |c| c.starts_with("panicking-handler:")) {
+    panicking_handler_battery(cfg, rep);
+  }
 }
 
 fn typed_case(rep: &mut Report, id: &str, chain: &Chain, items: &[i64], got: Vec<N>) {
@@ -333,6 +336,99 @@ fn typed_case(rep: &mut Report, id: &str, chain: &Chain, items: &[i64], got: Vec
     rep.nontrivial.insert(hash64(&(chain, items, "typed")));
   }
 }
+
+/// The subscriber's handler panics on its k-th item (user code); the program catches the panic
+/// around the source's call and goes on. Whatever the operator had to remember up to that item it
+/// still remembers: the whole observed sequence (the failed delivery included - the probe records
+/// an item before its handler runs) is still what the list model gives for the input.
+/// Operators for which the unmodified library does not behave that way are listed in
+/// NOT_DEMANDED (the documentation says nothing about panicking handlers) and skipped.
+fn panicking_handler_battery(cfg: &Cfg, rep: &mut Report) {
+  let it = |v: &[i64]| -> Vec<N> { v.iter().map(|x| N::Next(V::I(*x))).collect() };
+  let mut scripts: Vec<Vec<N>> = vec![];
+  for (items, term) in [(vec![0i64, 1, 2, 1, 0], N::Complete), (vec![1, 1, 2, 2, 0], N::Complete), (vec![2, 0, 1, 1], N::Err(7))] {
+    let mut s = it(&items);
+    s.push(term);
+    scripts.push(s);
+  }
+  let mut idx = 0usize;
+  for op in crate::gen::single_op_variants(1) {
+    if NOT_DEMANDED.contains(&op.name()) {
+      continue;
+    }
+    for script in &scripts {
+      for k in 1..=3usize {
+        idx += 1;
+        if !cfg.mine(idx) {
+          continue;
+        }
+        let id = format!("panicking-handler:{}", idx);
+        if !cfg.wants(&id) {
+          continue;
+        }
+        let chain = Chain::new(Src::Hot(0), vec![op.clone()]);
+        let Some(allowed) = model::allowed_outputs(&chain, &[script.clone()]) else { continue };
+        // the case only counts when a k-th item is delivered at all
+        if !allowed.iter().any(|a| a.iter().filter(|n| matches!(n, N::Next(_))).count() >= k) {
+          continue;
+        }
+        rep.evaluations += 1;
+        rep.count("cases_with_a_handler_that_panics_on_an_item", 1);
+        let got = catch(|| {
+          clear_local_cbs();
+          let mut w = World::new(Flavor::Local, 1);
+          w.subscribe(&chain, 1);
+          let seen = std::rc::Rc::new(std::cell::Cell::new(0usize));
+          let s2 = seen.clone();
+          set_local_cb(
+            1,
+            std::rc::Rc::new(move |n: &N| {
+              if matches!(n, N::Next(_)) {
+                s2.set(s2.get() + 1);
+                if s2.get() == k {
+                  panic!("the subscriber fails on an item");
+                }
+              }
+            }),
+          );
+          for n in script.iter() {
+            let n = n.clone();
+            let w2 = &mut w;
+            let _ = std::panic::catch_unwind(std::panic::AssertUnwindSafe(move || w2.inject(0, n)));
+          }
+          clear_local_cbs();
+          let out = w.log.notes(1);
+          w.teardown();
+          out
+        });
+        match got {
+          Err(p) => rep.violation("panic", &format!("{}[a handler panicked on an item]", op.name()), &id, json!({"chain": chain.show(), "panic": p})),
+          Ok(out) => {
+            rep.events += out.len() as u64;
+            if !allowed.contains(&out) {
+              rep.violation(
+                "sequence_mismatch",
+                &format!("{}[a handler panicked on an item]", op.name()),
+                &id,
+                json!({"chain": chain.show(), "script": jn(script), "handler_panicked_on_its_item_number": k, "observed": jn(&out), "expected_one_of": allowed.iter().map(|a| jn(a)).collect::<Vec<_>>()}),
+              );
+            } else {
+              rep.nontrivial.insert(hash64(&(&chain, script, k, "panicking-handler")));
+            }
+          }
+        }
+      }
+    }
+  }
+}
+
+/// operators whose behaviour after a caught handler panic is not demanded: they hand over an item
+/// and a terminal (or several notifications) within one call, or finish on the item they forward,
+/// and the unwinding panic takes the rest of that call with it (observed on the unmodified library)
+const NOT_DEMANDED: [&str; 19] = [
+  "all", "buffer_with_count", "collect", "contains", "count", "element_at", "first", "first_or", "last", "last_or", "max", "min", "reduce",
+  "reduce_initial", "skip_while", "sum", "take", "take_last", "take_while_inclusive",
+];
 
 fn static_battery(cfg: &Cfg, rep: &mut Report) {
   use rxrust::prelude::*;
